@@ -30,6 +30,9 @@ def run(db, chk) -> None:
     from ..specs.endcoherence import check_time_dtype
     check_time_dtype(db, chk, "C08.R8-time-dtype")
     _cg_scope(db, chk)
+    # operator edges follow the nesting of ONE host thread: the builder behind the critical path splits a rank's events by (pid, tid) (clause shared with C03)
+    from . import c03 as _c03
+    _c03._thread_identity(db, chk, db.mod(_c03.NEW), db.mod(_c03.OLD), rule="C08.R12-thread-identity", only_builder_of_critical_path=True)
     from .c01 import _rounding
     _rounding(db, chk, rule="C08.R9-inward-rounding")        # fractional timestamps are rounded inward, so nesting / disjointness of events (the well-formedness the graph relies on) survives loading          # node times and edge weights are differences of ts / ts + dur of the loaded frame
     from ..specs.discipline import check_stateless
@@ -298,12 +301,25 @@ def _sites(db, chk, m):
     helper = m.func("CPGraph._add_edge_helper")
     R = Roles(m)
     sites = []
-    for q, f in m.functions.items():
+    wrappers = set()
+    for q, f0 in m.functions.items():
         if not q.startswith("CPGraph."):
             continue
-        for c in walk_no_nested(f):
+        # private wrappers around the edge helper (e.g. "create the edge and attribute it") are read as if written out at their call sites
+        f = H.inline_helpers(m, f0, exclude=("_add_edge_helper", "_attribute_edge", "_add_edge", "_validate_graph")) if m.enclosing_function(f0) is None else f0
+        for c in (ast.walk(f) if f is not f0 else walk_no_nested(f)):
             if isinstance(c, ast.Call) and isinstance(c.func, ast.Attribute) and c.func.attr == "_add_edge_helper" and H.is_self_attr(c.func):
+                if f is not f0 and any(c is x for g in ast.walk(f) if isinstance(g, (ast.FunctionDef, ast.AsyncFunctionDef)) and g is not f for x in ast.walk(g)):
+                    continue          # inside a nested function: visited with that function
+                tb = H.bind_call(helper, c).get("type")
+                if isinstance(tb, ast.Name) and tb.id in H.param_names(f0) and f0.name.startswith("_") and f0.name != "_add_edge_helper":
+                    wrappers.add(f0.name)          # the type is the wrapper's own parameter: its call sites (inlined above) carry the literal
+                    continue
                 sites.append((q, f, c))
+    for w in sorted(wrappers):
+        used = [c for q, f0 in m.functions.items() if q.startswith("CPGraph.") for c in ast.walk(f0) if isinstance(c, ast.Call) and isinstance(c.func, ast.Attribute) and c.func.attr == w]
+        if not used:
+            chk.ob(rule, f"edge wrapper {w} has call sites", None, CP, found=0)
     chk.analysed_add("edge_creation_sites", [f"{q}:{c.lineno}" for q, f, c in sites])
     for q, f, c in sites:
         b = H.bind_call(helper, c)
